@@ -749,3 +749,83 @@ def rule_ord_of_case_mapping(ctx, rep, rid: str, modules: Optional[Tuple[str, ..
                 rep.ok(rid, key, {"guard": "length / ASCII established"})
             else:
                 rep.bad(rid, key, f"{f.qual} takes ord() of {norm(m)}: for characters whose {m.func.attr}-case mapping is longer than one character (\\u00df, \\u0130, \\u0149 ...) this is a host TypeError that escapes eval", f"{f.module.rel}:{n.lineno}")
+
+
+# ---- sequence repetition by a script-chosen count ------------------------------------------------------------
+def rule_bounded_repetition(ctx, rep, rid: str, only=None) -> None:
+    """`"0" * n` and `[x] * n` allocate n elements at once: with n taken from a script number (a digit count, a
+    length) the host answers MemoryError or OverflowError unless n was compared with an upper bound first."""
+    rep.rule(rid, "a host sequence is repeated (`seq * n`) by a count that comes from a script number only after that count was compared with an upper bound (a raise/return for larger values, or min(..)): the host's MemoryError/OverflowError for an absurd count is not a JSError", floor=3)
+    from ..util import atoms, known_conditions
+
+    sr = ctx.facts.script_reachable()
+    n = 0
+    for f in ctx.tree.funcs:
+        if isinstance(f.node, ast.Lambda) or f.module.name not in ("vm", "context", "values"):
+            continue
+        if id(f) not in sr and f.module.name != "values":
+            continue
+        if only is not None and not only(f.qual):
+            continue
+        # script-number locals: results of to_integer / to_number / int(to_number(..)) and parameters of methods named length/value
+        nums: Set[str] = set()
+        for a in f.own_nodes():
+            if isinstance(a, ast.Assign) and len(a.targets) == 1 and isinstance(a.targets[0], ast.Name):
+                if any(isinstance(x, ast.Call) and call_name(x) in ("to_integer", "to_number", "_to_number", "_array_length", "_to_index") for x in ast.walk(a.value)):
+                    nums.add(a.targets[0].id)
+        params = [p for p in f.params() if p != "self"]
+        for m in f.own_nodes():
+            if not (isinstance(m, ast.BinOp) and isinstance(m.op, ast.Mult)):
+                continue
+            seq, cnt = None, None
+            for x, y in ((m.left, m.right), (m.right, m.left)):
+                if (isinstance(x, ast.Constant) and isinstance(x.value, str)) or isinstance(x, ast.List) or (isinstance(x, ast.Name) and x.id == "s" and any(g.name == "_make_string_method" for g in _ancestors_of(f))):
+                    seq, cnt = x, y
+            if seq is None:
+                continue
+            names = [v.id for v in ast.walk(cnt) if isinstance(v, ast.Name)]
+            script = [v for v in names if v in nums or (v in params and f.module.name == "values" and v in ("length", "value", "count"))]
+            if not script:
+                continue
+            n += 1
+            v = script[0]
+            key = f"{f.qual}:{short(m, 40)}"
+            ats = [(norm(a).replace(" ", ""), p) for t, pol in known_conditions(m, f.node) for a, p in atoms(t, pol)]
+            bounded = any(((a.startswith(f"{v}>") or a.startswith(f"{v}>=")) and not p) or ((a.startswith(f"{v}<") or a.startswith(f"{v}<=")) and p and not a.startswith(f"{v}<0") and not a.startswith(f"{v}<1")) or ((f"*{v}>" in a or f"{v}*" in a and ">" in a) and not p) for a, p in ats)
+            if not bounded:
+                # an earlier `v = min(v, K)` or a clamp helper
+                bounded = any(isinstance(a, ast.Assign) and any(isinstance(t, ast.Name) and t.id == v for t in a.targets) and isinstance(a.value, ast.Call) and norm(a.value.func) == "min" and a.lineno < m.lineno for a in f.own_nodes())
+            if not bounded and f.module.name == "values" and v in params:
+                # the object model's own methods: every caller passes a bounded value (checked at the call sites below)
+                callers_ok = True
+                def _script_value(g, c) -> bool:
+                    loc = {a.targets[0].id for a in g.own_nodes() if isinstance(a, ast.Assign) and len(a.targets) == 1 and isinstance(a.targets[0], ast.Name) and any(isinstance(x, ast.Call) and call_name(x) in ("to_integer", "to_number", "_to_number") for x in ast.walk(a.value))}
+                    return any(isinstance(x, ast.Name) and x.id in loc for x in ast.walk(c.value))
+
+                sites = [(g, c) for g in ctx.tree.funcs if g.module.name in ("vm", "context") and not isinstance(g.node, ast.Lambda) for c in g.own_nodes() if isinstance(c, ast.Assign) and any(isinstance(t, ast.Attribute) and t.attr == f.name and norm(t.value) != "self" for t in c.targets) and _script_value(g, c)] if f.name == "length" else []
+                for g, c in sites:
+                    ats2 = [(norm(a).replace(" ", ""), p) for t, pol in known_conditions(c, g.node) for a, p in atoms(t, pol)]
+                    vv = [x.id for x in ast.walk(c.value) if isinstance(x, ast.Name)]
+                    if not any(any((a.startswith(f"{w}>") and not p) for a, p in ats2) for w in vv):
+                        callers_ok = False
+                        rep.bad(rid, key + f":{g.name}", f"{g.qual} assigns a script number to .{f.name} (line {c.lineno}) without an upper bound, and {f.qual} allocates that many elements at once (`{short(m, 40)}`): MemoryError for an absurd length is a host exception", f"{g.module.rel}:{c.lineno}")
+                if sites and callers_ok:
+                    bounded = True
+                elif not sites:
+                    n -= 1
+                    continue
+                else:
+                    continue
+            if bounded:
+                rep.ok(rid, key, {"count": v})
+            else:
+                rep.bad(rid, key, f"{f.qual} repeats a sequence `{short(m, 40)}` by `{v}`, a script number that no earlier test bounds from above on this path: for {v} = 1e9 or Infinity (clamped to 2**53) the host raises MemoryError / OverflowError, which leaves eval as a host exception no script can catch", f"{f.module.rel}:{m.lineno}")
+    if n < 3:
+        raise AnalysisError(f"{rid}: only {n} repetitions by a script count found")
+
+
+def _ancestors_of(f: Func):
+    g = f.parent
+    while g is not None:
+        yield g
+        g = g.parent
